@@ -93,7 +93,9 @@ class ServerPlugin(Plugin):
     def coq_case(self, c):
         evs = [ev_term(t, c["tr"]) for t in c["evs"]]
         evs = [e for e in evs if e is not None]
-        g = "true" if c["mode"] == "g" else "false"
+        g = "true" if c["mode"] in ("g", "k") else "false"
+        if c["mode"] == "k":          # graceful, and the caller keeps the completed serving future alive
+            evs = ["EKeepFuture"] + evs
         return f"mkCase (mkCfg {g} {PROTO[c['proto']]}) [{'; '.join(evs)}]"
 
     def coq_obs(self, o):
